@@ -589,10 +589,16 @@ def file_texts(cfg, with_includes=True):
     it includes directly (and only then).  A2 is a different file that is also
     called A.prophy: same type names, other numbers."""
     incs = cfg["incs"]
+    # some configurations make A a file WITHOUT definitions (a licence header, say): it is still included
+    # wherever the configuration says, but nobody uses a name from it
+    empty_a = bool(cfg.get("emptyA"))
+    real_incs = incs
+    if empty_a:
+        incs = {f: [x for x in ls if x != "A"] for f, ls in incs.items()}
 
     def inc_lines(f):
-        return "".join('#include "%s.prophy"\n' % leaf for leaf in incs[f]) if with_includes else ""
-    a = inc_lines("A") + DECL["A"]
+        return "".join('#include "%s.prophy"\n' % leaf for leaf in real_incs[f]) if with_includes else ""
+    a = inc_lines("A") + ("// no definitions in this file\n/* only comments */\n" if empty_a else DECL["A"])
     a2 = "const CA = 5;\nenum EA { EA_x = 1, EA_y = 5 };\ntypedef u16 TA;\nstruct SA { u8 x[CA]; EA e; u16 extra; };\n"
     # B's typedef goes on to A's when B includes A: a chain that crosses a nested include when M uses it as a sizer
     b = inc_lines("B") + "typedef %s TB;\nstruct SB { %su16 y; u64 z; };\n" % (
@@ -674,6 +680,7 @@ def include_worker(cases, wid, extra):
         for ci, cfg in enumerate(cases):
             root = os.path.join(base, "w%d_c%d" % (wid, ci))
             os.makedirs(root)
+            cfg = dict(cfg, emptyA=(ci % 5 == 4 and cfg["reads"].get("A2", 0) == 0))
             paths = materialise(cfg, root)
             out = os.path.join(root, "out%d_%d" % (wid, ci))
             os.makedirs(out)
@@ -784,13 +791,13 @@ def include_worker(cases, wid, extra):
                     res["fails"].append(dict(basef, what="generated per-file modules do not import: %s" % P.exc_text(e)))
                     shutil.rmtree(root, ignore_errors=True)
                     continue
-                if "A" in closure(cfg, "M") and mods["A"].CA != single.CA:
+                if "A" in closure(cfg, "M") and not cfg.get("emptyA") and mods["A"].CA != single.CA:
                     res["fails"].append(dict(basef, what="constant CA differs"))
                 x, y = mods["M"].SM(), single.SM()
                 for msg in (x, y):
                     msg.t = 7
                     msg.w[:] = [1, -2]
-                    if "A" in cfg["incs"]["M"]:
+                    if "A" in cfg["incs"]["M"] and not cfg.get("emptyA"):
                         msg.a.x[:] = [1, 2, 3]
                         msg.a.e = "EA_y"
                     if "B" in cfg["incs"]["M"]:
@@ -1214,6 +1221,11 @@ def c12(tier, replay):
         for label, text in TEXT_BREAKERS:
             items.append({"text": env.render() + "\n" + text, "expect": "reject", "label": label,
                           "rules": ["text-level rule"], "cpp": False})
+    # degenerate but legal schemas: every artefact must still be usable
+    for label, text in (("comments only", "// nothing\n/* at all */\n"), ("empty file", ""), ("one constant", "const K = 3;\n"),
+                        ("one enum", "enum E { E_a = 1 };\n"), ("one typedef", "typedef u8 T;\n"),
+                        ("typedef of typedef", "typedef u16 T;\ntypedef T TT;\nstruct X { TT a; };\n")):
+        items.append({"text": text, "expect": "accept", "label": label, "rules": [], "cpp": True, "cpp_full": True})
     jobs = _chunks(items, NCPU)
     with ProcessPoolExecutor(max_workers=NCPU) as ex:
         results = list(ex.map(legality_worker, jobs, range(len(jobs)), [{"scratch": scratch_dir("leg")}] * len(jobs)))
